@@ -720,6 +720,50 @@ def r07_13(ctx, rep):
     rep.ob(R, TREE, "no class look-up is remembered under a key", not hits, "; ".join(hits[:3]))
 
 
+@SPEC.rule(
+    "R07.14",
+    "a class may extend a class of the same simple name: the `cannot extend itself` test of flatten_extends compares the two classes' full "
+    "references (both operands call full_reference()) — compared by `.name`, `model Leaf extends Lib.Leaf` is refused and none of its "
+    "inherited variables and equations are produced",
+)
+def r07_14(ctx, rep):
+    R = "R07.14"
+    fn = ctx.func(TREE, "flatten_extends", R)
+    site = TREE + ":flatten_extends"
+    n = 0
+    for st in ast.walk(fn):
+        if isinstance(st, ast.If) and any(isinstance(x, ast.Raise) and "itself" in norm(x) for x in st.body):
+            n += 1
+            t = st.test
+            sides = [t.left] + list(t.comparators) if isinstance(t, ast.Compare) and len(t.ops) == 1 else []
+            ok = len(sides) == 2 and all(any(isinstance(c, ast.Call) and isinstance(c.func, ast.Attribute) and c.func.attr == "full_reference" for c in ast.walk(s_)) for s_ in sides)
+            rep.ob(R, site, "self-extension is decided on full references", ok, "the test is `%s`" % norm(t)[:80])
+    if n < 1:
+        raise MechanismMissing(R, "the `cannot extend class with itself` guard was not found in flatten_extends")
+
+
+@SPEC.rule(
+    "R07.15",
+    "every instance's binding equations are emitted: add_state_value_equations turns the declaration equation of every symbol into an equation "
+    "of the flat class, except for constants and parameters — the set of exempting prefixes is exactly {constant, parameter} (`discrete Real "
+    "d = 2*x` is an equation like any other)",
+)
+def r07_15(ctx, rep):
+    R = "R07.15"
+    fn = ctx.func(TREE, "add_state_value_equations", R)
+    site = TREE + ":add_state_value_equations"
+    sets = [literal(x) for x in ast.walk(fn) if isinstance(x, (ast.Set, ast.List, ast.Tuple)) and x.elts and all(isinstance(e, ast.Constant) and isinstance(e.value, str) for e in x.elts)]
+    sets = [set(x) for x in sets if x is not None and ({"constant", "parameter"} & set(x))]
+    if not sets:
+        raise MechanismMissing(R, "the set of exempting prefixes was not found in add_state_value_equations")
+    for k, s_ in enumerate(sets):
+        rep.ob(R, site, "exempting prefixes #%d" % (k + 1), s_ == {"constant", "parameter"},
+               "symbols with a prefix in %s get no equation for their declaration binding: for anything but constants and parameters that equation "
+               "is part of the model" % sorted(s_))
+    appends = [c for c in calls(fn) if isinstance(c.func, ast.Attribute) and c.func.attr == "append" and norm(c.func.value).endswith(".equations")]
+    rep.ob(R, site, "the binding becomes an equation", bool(appends), "no append to <node>.equations found")
+
+
 # -- seeded variants ---------------------------------------------------------
 from ._mut import delete_stmt_where, replace_in_func  # noqa: E402
 
